@@ -387,6 +387,23 @@ end
 def valsOk (vs : List Tok) : Bool := vs.all fun t => tokOk t && t.tt != .whitespace
 
 mutual
+/-- `tokOk` without the condition on neighbours inside functions (`sepOk`): only "every lexeme is a token of its
+    type" — the hypothesis of the full statement that is false (`css_writer_retokenises_counterexample`) -/
+def lexTokOk : Tok → Bool
+  | .mk tt data args =>
+    if tt == .function then lexOk .function data && nameHeadOk data && lexArgsOk args
+    else if tt == .url then urlOk data
+    else if tt == .string then lexOk .string data
+    else if tt == .whitespace then data == [' ']
+    else isPlain tt && lexOk tt data && punctOk tt data
+def lexArgsOk : List Tok → Bool
+  | [] => true
+  | t :: r => lexTokOk t && lexArgsOk r
+end
+
+def lexemesOk (vs : List Tok) : Bool := vs.all fun t => lexTokOk t && t.tt != .whitespace
+
+mutual
 /-- the token stream a value stands for -/
 def flatTok : Tok → List Token
   | .mk tt data args =>
